@@ -86,6 +86,104 @@ fn conversions(p: &[T]) -> u64 {
         atoms_o.sort(); atoms_c.sort();
         if atoms_o != atoms_c { fail(format!("atoms() of the ArcTerm copy differ: {:?} vs {:?}", atoms_o, atoms_c)); }
     }
+    // other Term implementations shipped by the toolkit: the same term held in them answers every accessor like
+    // the SimpleTerm and is equal / hashed / ordered alike
+    fn accessors<A: Term + std::fmt::Debug, B: Term + std::fmt::Debug>(how: &str, a: &A, b: &B) {
+        let s = |x: Option<sophia_api::MownStr>| x.map(|m| m.to_string());
+        let ok = a.kind() == b.kind()
+            && a.iri().map(|i| i.as_str().to_string()) == b.iri().map(|i| i.as_str().to_string())
+            && a.bnode_id().map(|i| i.as_str().to_string()) == b.bnode_id().map(|i| i.as_str().to_string())
+            && s(a.lexical_form()) == s(b.lexical_form())
+            && a.datatype().map(|i| i.as_str().to_string()) == b.datatype().map(|i| i.as_str().to_string())
+            && a.language_tag().map(|i| i.as_str().to_ascii_lowercase()) == b.language_tag().map(|i| i.as_str().to_ascii_lowercase())
+            && a.variable().map(|i| i.as_str().to_string()) == b.variable().map(|i| i.as_str().to_string())
+            && a.is_triple() == b.is_triple() && a.is_atom() == b.is_atom() && a.is_iri() == b.is_iri() && a.is_blank_node() == b.is_blank_node() && a.is_literal() == b.is_literal() && a.is_variable() == b.is_variable();
+        if !ok { fail(format!("{}: accessors of {:?} and {:?} disagree", how, a, b)); }
+    }
+    for t in &extra {
+        n += 1;
+        let rt = sophia_sparql::ResultTerm::from(ArcTerm::from_term(t.borrow_term()));
+        same("ResultTerm::from(ArcTerm)", t, &rt);
+        accessors("ResultTerm", t, &rt);
+        accessors("ArcTerm", t, &ArcTerm::from_term(t.borrow_term()));
+        accessors("RcTerm", t, &RcTerm::from_term(t.borrow_term()));
+        accessors("CmpTerm", t, &sophia_api::term::CmpTerm(t.borrow_term()));
+        same("CmpTerm", t, &sophia_api::term::CmpTerm(t.borrow_term()));
+        same("&T", t, &&*t);
+        if let Some(tr) = rt.triple() { let orig = t.triple().unwrap(); for i in 0..3 { same("component of ResultTerm::triple()", &orig[i], &tr[i]); } }
+    }
+    // native values as terms vs the equivalent literal
+    {
+        let xs = "http://www.w3.org/2001/XMLSchema#";
+        let l = |lex: &str, dt: &str| SimpleTerm::LiteralDatatype(lex.to_string().into(), IriRef::new_unchecked(format!("{}{}", xs, dt).into()));
+        for v in [0i32, 1, -1, 42, i32::MAX, i32::MIN] { n += 1; let lit = l(&v.to_string(), "integer"); same("i32 as term", &lit, &v); accessors("i32 as term", &lit, &v); }
+        for v in [0isize, -7, isize::MAX, isize::MIN] { n += 1; let lit = l(&v.to_string(), "integer"); same("isize as term", &lit, &v); accessors("isize as term", &lit, &v); }
+        for v in [0usize, 7, usize::MAX] { n += 1; let lit = l(&v.to_string(), "integer"); same("usize as term", &lit, &v); accessors("usize as term", &lit, &v); }
+        for v in [true, false] { n += 1; let lit = l(if v { "true" } else { "false" }, "boolean"); same("bool as term", &lit, &v); accessors("bool as term", &lit, &v); }
+        for v in ["", "a", "A b", "\u{e9}\u{10400}"] { n += 1; let lit = l(v, "string"); same("str as term", &lit, &v); accessors("str as term", &lit, &v); }
+        for v in [1.5f64, -0.0, 1e300, f64::INFINITY] { n += 1; let lf = Term::lexical_form(&v).unwrap().to_string(); let lit = l(&lf, "double"); same("f64 as term", &lit, &v); accessors("f64 as term", &lit, &v); }
+        // IRI wrappers and NsTerm as terms
+        let i = IriRef::new_unchecked("x:abc"); n += 1; same("IriRef as term", &iri("x:abc"), &i); accessors("IriRef as term", &iri("x:abc"), &i);
+        let ns = Namespace::new_unchecked("x:a"); let nt = ns.get_unchecked("bc"); n += 1; same("NsTerm as term", &iri("x:abc"), &nt); accessors("NsTerm as term", &iri("x:abc"), &nt);
+        let b = BnodeId::new_unchecked("a"); n += 1; same("BnodeId as term", &SimpleTerm::BlankNode(BnodeId::new_unchecked("a".into())), &b);
+        let v = VarName::new_unchecked("a"); n += 1; same("VarName as term", &SimpleTerm::Variable(VarName::new_unchecked("a".into())), &v);
+    }
+    // Rio model terms wrapped as Trusted
+    {
+        use rio_api::model as rm;
+        use sophia_rio::model::Trusted;
+        let nn = rm::NamedNode { iri: "x:abc" };
+        n += 1; same("Trusted<NamedNode>", &iri("x:abc"), &Trusted(nn)); accessors("Trusted<NamedNode>", &iri("x:abc"), &Trusted(nn));
+        let bnn = rm::BlankNode { id: "a" };
+        n += 1; same("Trusted<BlankNode>", &SimpleTerm::BlankNode(BnodeId::new_unchecked("a".into())), &Trusted(bnn));
+        let lits = [
+            (rm::Literal::Simple { value: "a" }, SimpleTerm::LiteralDatatype("a".into(), IriRef::new_unchecked("http://www.w3.org/2001/XMLSchema#string".into()))),
+            (rm::Literal::LanguageTaggedString { value: "a", language: "en-US" }, SimpleTerm::LiteralLanguage("a".into(), LanguageTag::new_unchecked("en-us".into()))),
+            (rm::Literal::Typed { value: " 1 ", datatype: rm::NamedNode { iri: "x:d" } }, SimpleTerm::LiteralDatatype(" 1 ".into(), IriRef::new_unchecked("x:d".into()))),
+        ];
+        for (rl, st) in lits { n += 1; same("Trusted<Literal>", &st, &Trusted(rl)); accessors("Trusted<Literal>", &st, &Trusted(rl)); same("Trusted<Term::Literal>", &st, &Trusted(rm::Term::Literal(rl))); }
+        let inner = rm::Triple { subject: rm::Subject::BlankNode(bnn), predicate: nn, object: rm::Term::Literal(rm::Literal::Simple { value: "a" }) };
+        let qt = rm::Term::Triple(&inner);
+        let st = SimpleTerm::Triple(Box::new([SimpleTerm::BlankNode(BnodeId::new_unchecked("a".into())), iri("x:abc"), SimpleTerm::LiteralDatatype("a".into(), IriRef::new_unchecked("http://www.w3.org/2001/XMLSchema#string".into()))]));
+        n += 1; same("Trusted<Term::Triple>", &st, &Trusted(qt));
+        let gn = rm::GraphName::NamedNode(nn); n += 1; same("Trusted<GraphName>", &iri("x:abc"), &Trusted(gn));
+    }
+    // terms coming out of the JSON-LD parser (its own Term type): each one against its SimpleTerm copy, and a
+    // literal has a language tag only together with the datatype rdf:langString
+    {
+        use sophia_api::prelude::QuadParser;
+        use sophia_api::quad::Quad;
+        use sophia_api::source::QuadSource;
+        use sophia_jsonld::{JsonLdOptions, JsonLdParser};
+        let doc = r#"{"@id": "tag:s", "tag:p": ["plain", 42, 1.5e0, true, {"@value": "chat", "@language": "fr-CA"}, {"@value": "5", "@type": "tag:dt"},
+            {"@value": "hello", "@language": "en", "@direction": "ltr"}, {"@value": "salam", "@direction": "rtl"}, {"@id": "_:b0"}, {"@id": "tag:o"}, {"@list": ["a", {"@id": "_:b1"}]}],
+            "@graph": [{"@id": "_:b0", "tag:q": {"@value": {"k": [1, 2]}, "@type": "@json"}}]}"#;
+        for dir in [None, Some(sophia_jsonld::options::RdfDirection::I18nDatatype), Some(sophia_jsonld::options::RdfDirection::CompoundLiteral)] {
+            let mut options = JsonLdOptions::new();
+            if let Some(d) = dir { options = options.with_rdf_direction(d); }
+            let p = JsonLdParser::new_with_options(options);
+            let mut src = p.parse_str(doc);
+            let mut k = 0u64;
+            src.for_each_quad(|q| {
+                let g = q.g();
+                let mut terms = vec![q.s(), q.p(), q.o()];
+                if let Some(gn) = g { terms.push(gn); }
+                for t in terms {
+                    k += 1;
+                    let copy: T = t.into_term();
+                    same("JSON-LD parser term vs its SimpleTerm copy", &copy, &t);
+                    accessors("JSON-LD parser term", &copy, &t);
+                    same("JSON-LD parser term .as_simple()", &copy, &t.as_simple());
+                    if t.is_literal() {
+                        let dt = t.datatype().map(|d| d.as_str().to_string()).unwrap_or_default();
+                        if t.language_tag().is_some() != (dt == "http://www.w3.org/1999/02/22-rdf-syntax-ns#langString") { fail(format!("JSON-LD parser literal {:?}: language tag {:?} with datatype {:?}", t, t.language_tag(), dt)); }
+                    }
+                }
+            }).unwrap_or_else(|e| fail(format!("JSON-LD document does not parse: {}", e)));
+            if k < 30 { fail(format!("JSON-LD document gave only {} terms", k)); }
+            n += k;
+        }
+    }
     // graph names
     for t in &extra {
         let g: sophia_api::term::GraphName<&T> = Some(t);
